@@ -475,12 +475,11 @@ theorem clog2_spec (N : Nat) : N ≤ 2 ^ clog2 N ∧ ∀ b, N ≤ 2 ^ b → clog
 theorem binaryCliqueCore_wf (G : SimpleG) (k : Nat) (sb : Bool) : (binaryCliqueCore G k sb).WF :=
   wf_of_consIn (binaryCliqueCore_consIn G k sb)
 
-/-- parameter validation of `BinaryCliqueFormula`: ValueError for `k < 0`, and also for `k = 0` and for the
-graph without vertices (`BinaryMappingVariables` wants both sizes positive) -/
+/-- parameter validation of `BinaryCliqueFormula`: ValueError exactly for `k < 0`; `k = 0` and the graph without
+vertices are accepted (fix of D42: `BinaryMappingVariables` takes an empty domain or range) -/
 theorem binaryCliqueFormula_eq (G : SimpleG) (k : Int) (sb : Bool) :
     binaryCliqueFormula G k sb =
-      if k < 0 then .error .valueError else if G.n < 1 ∨ k < 1 then .error .valueError
-      else .ok (binaryCliqueCore G k.toNat sb) := rfl
+      if k < 0 then .error .valueError else .ok (binaryCliqueCore G k.toNat sb) := rfl
 
 /-- every code handed to `forbid` is below `2^bits`: the ValueError branch of `forbid` is never taken,
 which is why the model uses the guard-free `forbidC` -/
